@@ -565,6 +565,10 @@ def expectLit (st : Nat) : List UInt8 → Bytes → Bool × Bytes × Bytes
         (ok, a ++ b, r2)
       else (false, [], r)
 
+/-- Does /repo carry the repair of finding F21 (`<sTimestamp>-?{D}+`, fixes/F21.patch)? The model follows the
+    code: flip this when the patch is applied. -/
+def repoF21Fixed : Bool := false
+
 /-- `promlexer.Lex` in start condition `st` with consumed prefix `acc` (non-empty after `#[ \t]+`). -/
 def textLexFrom (st : Nat) (acc : Bytes) (r : Bytes) : LexR :=
   let n := r.length + 1
@@ -635,6 +639,12 @@ def textLexFrom (st : Nat) (acc : Bytes) (r : Bytes) : LexR :=
     else if isDigitB c then
       let (a, r1) := scanWhile st isDigitB n r
       ⟨.timestamp, acc ++ a, st, r1⟩
+    else if repoF21Fixed && c == 45 then
+      let (m, r0) := adv st r
+      if isDigitB (cur r0) then
+        let (a, r1) := scanWhile st isDigitB n r0
+        ⟨.timestamp, acc ++ m ++ a, st, r1⟩
+      else abort (acc ++ m) r0
     else abort acc r
   else ⟨.invalid, acc, st, r⟩
 
@@ -819,10 +829,12 @@ def tParseSuffix (t : TokR) : Except PErr (Nat × Option Int × Nat × Bytes) :=
     match t2.tok with
     | .linebreak => .ok (v, none, t2.st, t2.rest)
     | .timestamp =>
-      let n := ofDigits (t2.buf.map (fun c => c.toNat - 48))
-      if n > maxI64 then .error .err else
+      -- strconv.ParseInt(buf, 10, 64); a sign only reaches here with the F21 repair
+      let neg := t2.buf.head? == some 45
+      let n := ofDigits ((if neg then t2.buf.drop 1 else t2.buf).map (fun c => c.toNat - 48))
+      if n > (if neg then maxI64 + 1 else maxI64) then .error .err else
       let t3 := tTok t2.st t2.rest
-      if t3.tok != .linebreak then .error .err else .ok (v, some (n : Int), t3.st, t3.rest)
+      if t3.tok != .linebreak then .error .err else .ok (v, some (if neg then -(n : Int) else (n : Int)), t3.st, t3.rest)
     | _ => .error .err
 
 def textTypes : List Bytes := [kw "counter", kw "gauge", kw "histogram", kw "summary", kw "untyped"]
